@@ -591,8 +591,9 @@ impl Vm {
     }
 
     pub(crate) fn push_frame(&mut self, mut frame: CallFrame) {
-        // Each function call starts with an implicit `undefined` return value.
-        self.return_value = JsValue::undefined();
+        // Each function call starts with an implicit `undefined` return value; the caller's
+        // value (the completion value of a script or `eval` so far) is kept in the frame.
+        frame.caller_return_value = std::mem::take(&mut self.return_value);
 
         // NOTE: We need to check if we already pushed the registers,
         //       since generator-like functions push the same call
@@ -641,7 +642,9 @@ impl Vm {
             return None;
         }
         self.shadow_stack.pop();
-        self.frames.pop()
+        let frame = self.frames.pop()?;
+        self.return_value = frame.caller_return_value.clone();
+        Some(frame)
     }
 
     /// Handles an exception thrown at position `pc`.
